@@ -300,6 +300,51 @@ def part_extreme(chk, n_versions):
         shutil.rmtree(outdir, ignore_errors=True)
 
 
+def part_header_text(chk):
+    """damage inside the JSON header that keeps it valid JSON: version values made of long runs (digits, separators, blanks) with a stray
+    character at the end or in the middle -- the worst case for anything that matches them with a pattern"""
+    outdir = os.path.join(common.WORK, 'c15h-%d' % os.getpid())
+    os.makedirs(outdir, exist_ok=True)
+    files = []
+    try:
+        runs = ['7' * 48 + 'x', '1,' * 40 + 'x', '1.' * 40 + '!', ' ' * 60 + 'x', '9' * 4000, ('12,' * 3000) + '0', '0,10,7,' + '8' * 40 + '-', ', ' * 50,
+                '1' * 30 + ' ' * 30 + '#' * 30 + 'x', '((((' * 20, 'a' * 50 + '1' * 50 + 'b']
+        k = 0
+        for ext, field, prefix in (('wowsreplay', 'clientVersionFromXml', ''), ('wotreplay', 'clientVersionFromXml', 'World\xa0of\xa0Tanks v.'),
+                                   ('wowpreplay', 'clientVersion', 'World of Warplanes ')):
+            for run in runs:
+                for val in (prefix + run, prefix + '0,10,7,0' + run):
+                    p = os.path.join(outdir, 'h%d.%s' % (k, ext))
+                    k += 1
+                    with open(p, 'wb') as f:
+                        f.write(container.write_container(ext, json.dumps({field: val}, ensure_ascii=False).encode('utf-8'), [], b''))
+                    files.append(p)
+        jobs = [(files[i:i + 11], 'lenient', 5) for i in range(0, len(files), 11)]
+        for files_, mode, out, died in common.pmap(_batch, jobs):
+            done = {r['file'] for r in out}
+            if died:
+                culprit = next((f for f in files_ if os.path.basename(f) not in done), None)
+                keep = None
+                if culprit:
+                    import shutil
+                    keep = os.path.join(common.WORK, 'replays', 'C15-header-' + os.path.basename(culprit))
+                    shutil.copy(culprit, keep)
+                chk.report('the parser process is killed or hangs on a file whose header carries a long version text: %s' % died,
+                           {'kind': 'header-text', 'file': keep})
+            for r in out:
+                chk.count((r['file'], 'header-text'), nontrivial=True)
+                chk.dist('header-text:%s' % r['outcome'])
+                if r['outcome'] in ('timeout', 'memory', 'escape') or r.get('cpu_s', 0) > 3:
+                    import shutil
+                    keep = os.path.join(common.WORK, 'replays', 'C15-header-' + r['file'])
+                    shutil.copy(os.path.join(outdir, r['file']), keep)
+                    chk.report('a file whose header carries a long version text takes %.1f s of CPU (%s)' % (r.get('cpu_s', 0), r['outcome']),
+                               {'kind': 'header-text', 'file': keep, 'outcome': r})
+    finally:
+        import shutil
+        shutil.rmtree(outdir, ignore_errors=True)
+
+
 def pickle_bombs():
     """small pickles without any global whose object graph is highly shared or deeply nested: cheap to load, expensive for code that walks
     them as trees"""
@@ -559,6 +604,7 @@ def run(chk, drv):
                        'parse under RLIMIT_AS 3 GiB and a CPU-time limit of 20 s + 60 s/MB (wall clock 8x); battles with extreme field values; crafted pickle graphs; adaptive runs of adversarial slice packets (growth bound); corrupted streams of generated histories through model and '
                        'implementation; NoZeroWidth on every bundled set. Non-trivial: all; distinct by (file, mode).')
     part_zero_width(chk)
+    part_header_text(chk)
     part_campaign(chk, 16 if quick else 1500, 4 if quick else 10)
     part_extreme(chk, 16 if quick else 1000)
     part_bombs(chk, 100 if quick else 1000)
